@@ -84,7 +84,7 @@ def expects (pc : Pc) (a : Ans) : Bool :=
   match a with
   | .raise => true
   | .ret => !(pc == .clock || pc == .fetch || pc == .decision || pc == .busy || pc == .suggest
-              || pc == .removable || pc == .finAll || pc == .finStatus || pc == .done)
+              || pc == .removable || pc == .finAll || pc == .finStatus || pc == .done || pc.silent)
   | .poll _ _ => pc == .fetch
   | .decision _ _ => pc == .decision
   | .ids _ => pc == .busy || pc == .removable || pc == .finAll
@@ -106,6 +106,7 @@ def jS (s : String) : Json := Json.str s
 def jOptN : Option Nat → Json := jOptNat
 
 def jCall : Call → Json
+  | .tau => jArr [jS "tau"]
   | .cb .tuningStart => jArr [jS "cb", jS "tuning_start"]
   | .cb .tuningEnd => jArr [jS "cb", jS "tuning_end"]
   | .cb .loopStart => jArr [jS "cb", jS "loop_start"]
@@ -137,6 +138,10 @@ def jCall : Call → Json
   | .allResults => jArr [jS "be", jS "all_results"]
   | .status t => jArr [jS "be", jS "status", jNat t]
   | .exit => jArr [jS "exit"]
+
+/-- run the silent steps that follow (they take no answer) -/
+partial def settle (s : LState) : LState :=
+  if s.pc.silent then settle (step s .ret) else s
 
 def jStat (m : MStat) : Json :=
   jObj [("count", jNat m.count),
@@ -177,7 +182,16 @@ def jFinal (d : DState) : Json :=
       | some (t, _) => jArr [jNat t]
       | none => Json.null)
     | .error _ => jS "error"
-  jObj [("raised", jRaised d.s.err),
+  -- `ExperimentResult.best_config(metric=i)`: row of the stored table
+  let bestRows := (List.range d.names.length).map fun i =>
+    match metricNameMode d.names d.modes (.byIndex (i : Nat)), d.s.stored with
+    | .ok (n, m), some rows =>
+      if rows.any (fun (r : Row) => alookup n r.m == some Val.other) then jS "error" else
+      (match argBest (m == .min) (rows.map fun (r : Row) => match alookup n r.m with | some (Val.num x) => x | _ => XRat.nan) 0 with
+       | some (i, _) => jNat i
+       | none => jS "error")
+    | _, _ => jS "error"
+  jObj [("raised", jRaised d.s.err), ("best_rows", jArr bestRows),
         ("started", jNat ts.numStarted), ("completed", jNat ts.numCompleted), ("failed", jNat ts.numFailed),
         ("finished", jNat ts.numFinished), ("running", jNat ts.numRunning),
         ("last", jArr (ts.last.map fun kv => jArr [jNat kv.1, jS kv.2.toString])),
@@ -213,13 +227,28 @@ def loopInit (j : Json) : Except String (DState × Json) := do
   let ms ← (← getArr j "modes").mapM fun m => do modeOf (← m.getStr?)
   let modes := if getBoolD j "mode_is_list" false then ModeSpec.many ms
                else match ms with | m :: _ => ModeSpec.one m | [] => ModeSpec.one .min
-  let (s, c) := init cfg
-  return ({ s := s, names := names, modes := modes }, jOut (jObj [("call", jCall c)]))
+  let s := settle (init cfg)
+  return ({ s := s, names := names, modes := modes }, jOut (jObj [("call", jCall (pending s))]))
+
+/-- reference-style op for `metric_name_mode` (C17 `mode_lookup`) -/
+def modeLookup (j : Json) : Except String Json := do
+  let names ← getNatList j "names"
+  let ms ← (← getArr j "modes").mapM fun m => do modeOf (← m.getStr?)
+  let modes := if getBoolD j "mode_is_list" false then ModeSpec.many ms
+               else match ms with | m :: _ => ModeSpec.one m | [] => ModeSpec.one .min
+  let sel ← (if hasKey j "name" then do pure (MetricSel.byName (← getNat j "name"))
+             else do pure (MetricSel.byIndex (← getInt j "index")))
+  match metricNameMode names modes sel with
+  | .ok (n, m) => return jOut (jObj [("name", jNat n), ("mode", Json.str (if m == .min then "min" else "max"))])
+  | .error .assertion => return jErr "assertion"
+  | .error .indexError => return jErr "index-error"
 
 def loopStep (d : DState) (j : Json) : Except String (DState × Json) := do
+  if getStrD j "op" "ans" == "mode_lookup" then return (d, ← modeLookup j)
   let a ← ansOf (← j.getObjVal? "ans")
   if !expects d.s.pc a then throw s!"protocol: answer does not fit control point {repr d.s.pc}"
-  let (s', c) := step d.s a
+  let s' := settle (step d.s a)
+  let c := pending s'
   let d' := { d with s := s' }
   let out := if c == .exit then jObj [("call", jCall c), ("final", jFinal d')] else jObj [("call", jCall c)]
   return (d', jOut out)
